@@ -160,6 +160,10 @@ def canon(t):
             else:
                 out.append(canon(part))
         return out
+    if t and t[0] == "arr":
+        return ["arr"] + sorted((canon(x) for x in t[1:]), key=dumps)
+    if t and t[0] == "obj":
+        return ["obj"] + sorted(([kv[0], canon(kv[1])] for kv in t[1:]), key=lambda kv: kv[0])
     if t and t[0] == "cont" and len(t) == 5:
         return ["cont", canon(t[1]), canon(t[2]), [canon(r) for r in t[3]],
                 sorted((canon(x) for x in t[4]), key=dumps)]
@@ -325,9 +329,58 @@ class Impl:
         if k == "EqRec":
             a = self.rec(op[1]); b = self.rec(op[2]); self._lib()
             return "true" if a == b else "false"
+        if k == "ExportJson":
+            d = self.docs[int(op[1])]; self._lib()
+            import json
+            return py_to_jv(json.loads(d.serialize(format="json")))
+        if k == "LoadJson":
+            import json
+            text = json.dumps(jv_to_py(op[1])); self._lib()
+            nd = M.ProvDocument.deserialize(content=text, format="json")
+            self.docs.append(nd)
+            return ["handle", str(len(self.docs) - 1)]
         if k == "ObserveAll":
             return [dump_doc(d) for d in self.docs]
         return ["unknown-op", k]
+
+
+def py_to_jv(x):
+    if x is None:
+        return ["null"]
+    if isinstance(x, bool):
+        return ["true"] if x else ["false"]
+    if isinstance(x, int):
+        return ["int", str(x)]
+    if isinstance(x, float):
+        return sx_value(x)
+    if isinstance(x, str):
+        return ["str", x]
+    if isinstance(x, list):
+        return ["arr"] + [py_to_jv(y) for y in x]
+    if isinstance(x, dict):
+        return ["obj"] + [[k, py_to_jv(v)] for k, v in x.items()]
+    raise ValueError("not a JSON value: %r" % (x,))
+
+
+def jv_to_py(t):
+    k = t[0]
+    if k == "null":
+        return None
+    if k == "true":
+        return True
+    if k == "false":
+        return False
+    if k == "int":
+        return int(t[1])
+    if k == "float":
+        return float(t[1])
+    if k == "str":
+        return t[1]
+    if k == "arr":
+        return [jv_to_py(x) for x in t[1:]]
+    if k == "obj":
+        return {kv[0]: jv_to_py(kv[1]) for kv in t[1:]}
+    raise ValueError("bad jv " + repr(t))
 
 
 def float_table(ops):
@@ -338,6 +391,10 @@ def float_table(ops):
     def walk(t):
         if isinstance(t, list):
             if len(t) == 4 and t[0] == "lit" and isinstance(t[1], str):
+                lex.add(t[1])
+            if len(t) == 2 and t[0] == "str" and isinstance(t[1], str) and len(t[1]) < 40:
+                lex.add(t[1])
+            if len(t) == 4 and t[0] == "float" and isinstance(t[1], str):
                 lex.add(t[1])
             for x in t:
                 walk(x)
